@@ -17,7 +17,8 @@ type C05Case struct {
 	P     *ref.Problem `json:"p"`
 	Front string       `json:"front"` // slicenb | dimacs | card | pb
 	Limit int          `json:"limit"`
-	Big   bool         `json:"big,omitempty"` // metamorphic identity instead of truth table
+	Big   bool         `json:"big,omitempty"` // large planted instance judged with the counting DPLL
+	CP    bool         `json:"cp,omitempty"`  // the counting / enumerating solvers use the cutting-planes strategy
 }
 
 var c05Counts = map[string]int{"quick": 60_000, "thorough": 1_500_000}
@@ -70,6 +71,7 @@ func c05Gen(r *gen.Rng, tier string, idx int) interface{} {
 	if mv := c.P.MaxVar(); mv > c.P.N {
 		c.P.N = mv
 	}
+	c.CP = r.Chance(1, 5)
 	return c
 }
 
@@ -230,6 +232,10 @@ func c05Run(ci interface{}, rec *Rec) {
 	}
 	p := c.P
 	front := map[string]string{"slicenb": "ParseSliceNb", "dimacs": "ParseCNF", "card": "ParseCardConstrs", "pb": "ParsePBConstrs"}[c.Front]
+	if c.CP {
+		front += "/cp"
+		rec.Count("cases_with_cutting_planes", 1)
+	}
 	SetLearnedLimit(c.Limit, true)
 	// 1. CountModels
 	scen := fmt.Sprintf("%s+CountModels/limit=%d", front, c.Limit)
@@ -254,6 +260,7 @@ func c05Run(ci interface{}, rec *Rec) {
 	count := -1
 	if !rec.Guard(scen, func() {
 		s = solver.New(pb)
+		s.CuttingPlanes = c.CP
 		count = s.CountModels()
 	}) {
 		rec.Count("count_calls", 1)
@@ -271,6 +278,7 @@ func c05Run(ci interface{}, rec *Rec) {
 		go func() {
 			panicked := rec.Guard(scen, func() {
 				s = solver.New(pb)
+				s.CuttingPlanes = c.CP
 				ret = s.Enumerate(ch, nil)
 			})
 			done <- panicked
@@ -321,6 +329,7 @@ func c05Run(ci interface{}, rec *Rec) {
 		ret := -1
 		if !rec.Guard(scen, func() {
 			s = solver.New(pb)
+			s.CuttingPlanes = c.CP
 			ret = s.Enumerate(nil, nil)
 		}) && ret != len(exp) {
 			rec.Viol(scen, "wrong-count", "Enumerate", "Enumerate(nil) returned %d, the problem has %d models", ret, len(exp))
